@@ -49,17 +49,18 @@ def _verify_c(job):
         out["sat_pre"] = str(r)
         uncovered = [str(k) for k, v in ex.covers.items() if not v]
         out["uncovered"] = len(uncovered)
-        tmo = meta.get("timeout", 20 if tier == "quick" else 90)
+        scale = int((opts or {}).get("timeout_scale", 1))
+        tmo = meta.get("timeout", 20 if tier == "quick" else 90) * scale
         # pass 1: every obligation with a short z3 budget; pass 2: cvc5 then a longer z3 budget on the
         # ones left open -- skipped once a replayed violation has settled the function
         for ob in obs:
-            solve.discharge(ob, min(tmo, 6), use_cvc5=False)
+            solve.discharge(ob, min(tmo, 6 * scale), use_cvc5=False)
         recs = {}
         confirmed = False
         n_replays = 0
         order = sorted(range(len(obs)), key=lambda q: 0 if obs[q].status == "failed" else 1)
         t_open = time.time()
-        budget = 150 if tier == "quick" else 1200
+        budget = (150 if tier == "quick" else 1200) * scale
         n_open_done = 0
         have_finst = False
         for q in order:
@@ -99,7 +100,10 @@ def _verify_c(job):
         all_ok = all(o.status == "discharged" for o in obs)
         if ncct and not all_ok and not any(o.status == "failed" for o in obs):
             ncct = max(ncct, 300)      # obligations left open by the solvers: look harder for a concrete counterexample
-        if ncct and not confirmed and (all_ok or not any(o.status == "failed" for o in obs)):
+        if ncct and not all_ok:
+            ncct = max(ncct, 300)      # also when a counter-model did not replay (it may describe a loop-head state that
+            # no input reaches): search for a concrete input of the real function that violates the contract
+        if ncct and not confirmed:
             try:
                 from vf import cct
                 r = cct.run(ex, n_inputs=ncct, seed=int(os.environ.get("VERIF_SEED", "0")))
@@ -239,6 +243,40 @@ def run_c_functions(funcs, tier, jobs=None, opts=None):
                             "error": "checker failure: worker died: %s" % e, "error_kind": "crash", "wall_s": 0})
     finally:
         pool.terminate()
+    # second look, with the machine quiet and four times the solver budget, at functions whose only open obligations
+    # are solver timeouts: a timeout under load must never turn into a verdict
+    if not (opts or {}).get("timeout_scale"):
+        again = []
+        for q, (w, r) in enumerate(zip(work, res)):
+            if r.get("error_kind") == "timeout":
+                again.append(q)
+                continue
+            if r.get("error"):
+                continue
+            open_ = [o for o in r["obligations"] if o["status"] != "discharged"]
+            if open_ and all(o["status"] == "unknown" for o in open_):
+                again.append(q)
+        if again:
+            pool = ctx.Pool(min(4, len(again)))
+            try:
+                asyncs = []
+                for q in again:
+                    o = dict(work[q][3] or {})
+                    o["timeout_scale"] = 4
+                    asyncs.append((q, pool.apply_async(_verify_c, ((work[q][0], work[q][1], work[q][2], o),))))
+                t_end = time.time() + 2 * limit
+                for q, a in asyncs:
+                    try:
+                        r2 = a.get(timeout=max(1.0, t_end - time.time()))
+                    except Exception:
+                        continue
+                    n1 = sum(1 for o in res[q]["obligations"] if o["status"] != "discharged") if not res[q].get("error") else 10**9
+                    n2 = sum(1 for o in r2["obligations"] if o["status"] != "discharged") if not r2.get("error") else 10**9
+                    if n2 <= n1:
+                        r2["second_look"] = True
+                        res[q] = r2
+            finally:
+                pool.terminate()
     for w, r in zip(work, res):
         sc = (w[3] or {}).get("scenario")
         if sc:
